@@ -245,32 +245,39 @@ def annotate_loops(body, loops_spec, fname):
     for ordn in loops_spec:
         if ordn >= len(loops):
             raise ExtractError('lost anchor: loop #%d in %s (found %d loops)' % (ordn, fname, len(loops)))
-    # apply from last to first so indices stay valid
-    for ordn in sorted(loops_spec, reverse=True):
+    # every insertion is computed against the ORIGINAL text and applied from the last position to the first, so that
+    # nested annotated loops cannot invalidate each other's offsets
+    orig = body
+    ins = []   # (pos, seq, replace_len, text)
+    seq = 0
+    for ordn in sorted(loops_spec):
         kw, ob, cb = loops[ordn]
         spec = loops_spec[ordn]
         # conditional clauses `[?name: text ?]` are kept only when the local `name` occurs in the function body, so that
         # invariants about incidental temporaries do not turn a refactoring into a front-end error
         def _cond(txt):
             def rep(m):
-                return m.group(2) if re.search(r'\b' + re.escape(m.group(1)) + r'\b', body) else ''
+                return m.group(2) if re.search(r'\b' + re.escape(m.group(1)) + r'\b', orig) else ''
             return re.sub(r'\[\?(\w+):(.*?)\?\]', rep, txt, flags=re.S)
         if isinstance(spec, dict):
             spec = {k: _cond(v) for k, v in spec.items()}
-        else:
-            spec = _cond(spec)
-        if isinstance(spec, dict):
             pre = spec.get('spec', '')
             top = spec.get('body_top', '')
             bot = spec.get('body_bottom', '')
             after = spec.get('after', '')
-            body = body[:cb] + ('\n' + bot + '\n' if bot else '') + body[cb:cb + 1] + ('\n' + after + '\n' if after else '') + body[cb + 1:]
-            body = body[:ob] + '\n' + pre + '\n{' + ('\n' + top + '\n' if top else '') + body[ob + 1:]
             if spec.get('before'):
-                ls = body.rfind('\n', 0, kw) + 1
-                body = body[:ls] + spec['before'] + '\n' + body[ls:]
+                ls = orig.rfind('\n', 0, kw) + 1
+                ins.append((ls, seq, 0, spec['before'] + '\n')); seq += 1
+            ins.append((ob, seq, 1, '\n' + pre + '\n{' + ('\n' + top + '\n' if top else ''))); seq += 1
+            if bot:
+                ins.append((cb, seq, 0, '\n' + bot + '\n')); seq += 1
+            if after:
+                ins.append((cb + 1, seq, 0, '\n' + after + '\n')); seq += 1
         else:
-            body = body[:ob] + '\n' + spec + '\n' + body[ob:]
+            spec = _cond(spec)
+            ins.append((ob, seq, 0, '\n' + spec + '\n')); seq += 1
+    for pos, _s, rl, text in sorted(ins, key=lambda t: (t[0], t[1]), reverse=True):
+        body = body[:pos] + text + body[pos + rl:]
     return body
 
 
